@@ -74,7 +74,11 @@ def run(prog, check):
     check.saw(gv)
     gv = flatten(prog, gv)
     g = cfgmod.build(gv)
-    reg = [n for n in g.stmt_nodes() if n.kind == 'stmt' and any(isinstance(c, ast.Call) and call_name(c) == '_RegisterAlias' for c in ast.walk(n.ast))]
+    # the registrar by role: the Model method(s) storing into self.Aliases[...]
+    REGISTRARS = {mf.name for mf in M.methods.values() if any(
+        isinstance(a_, ast.Assign) and any(isinstance(t_, ast.Subscript) and isinstance(t_.value, ast.Attribute) and t_.value.attr == 'Aliases'
+                                           for t_ in a_.targets) for a_ in ast.walk(mf.node))} or {'_RegisterAlias'}
+    reg = [n for n in g.stmt_nodes() if n.kind == 'stmt' and any(isinstance(c, ast.Call) and call_name(c) in REGISTRARS for c in ast.walk(n.ast))]
 
     def fullcode_empty(n):
         """True / False when reaching n implies FullCode == '' / != '', None when undetermined"""
@@ -102,7 +106,7 @@ def run(prog, check):
     alias_names = set()
     for n in reg:
         for c in ast.walk(n.ast):
-            if isinstance(c, ast.Call) and call_name(c) == '_RegisterAlias' and c.args and isinstance(c.args[0], ast.Name):
+            if isinstance(c, ast.Call) and call_name(c) in REGISTRARS and c.args and isinstance(c.args[0], ast.Name):
                 alias_names.add(c.args[0].id)
     okr = True
     for r in rets:
@@ -223,10 +227,31 @@ def run(prog, check):
         if f.name.startswith('_'):
             continue
         params = set(f.params()[1:])
-        forced = set()
+        # float-forced expressions:  F := float(..) | str(F) | repr(F) | a name every binding of which is an F
+        binds_ = {}
         for n in ast.walk(f.node):
-            if isinstance(n, ast.Assign) and isinstance(n.value, ast.Call) and call_name(n.value) == 'float':
-                forced.update(target_names(n.targets[0]))
+            if isinstance(n, ast.Assign):
+                for t_ in n.targets:
+                    for nm_ in target_names(t_):
+                        binds_.setdefault(nm_, []).append(n.value if isinstance(t_, ast.Name) else None)
+
+        def forced_e(e, seen=()):
+            if isinstance(e, ast.Call) and isinstance(e.func, ast.Name) and len(e.args) == 1 and not e.keywords:
+                if e.func.id == 'float':
+                    return True
+                if e.func.id in ('str', 'repr'):
+                    return forced_e(e.args[0], seen)
+            if isinstance(e, ast.Name) and e.id not in seen:
+                bs_ = binds_.get(e.id, [])
+                return bool(bs_) and all(b_ is not None and forced_e(b_, seen + (e.id,)) for b_ in bs_)
+            return False
+        forced = {nm_ for nm_ in binds_ if forced_e(ast.Name(id=nm_, ctx=ast.Load()))}
+        # names that carry caller data: the parameters and what is computed from them
+        derived = set(params)
+        for _r in range(4):
+            for nm_, bs_ in binds_.items():
+                if any(b_ is not None and any(isinstance(x_, ast.Name) and x_.id in derived for x_ in ast.walk(b_)) for b_ in bs_):
+                    derived.add(nm_)
         for c in ast.walk(f.node):
             if isinstance(c, ast.Call) and call_name(c) == 'append' and isinstance(c.func.value, ast.Attribute) and \
                     isinstance(c.func.value.value, ast.Name) and c.func.value.value.id == 'self' and c.args and isinstance(c.args[0], ast.Tuple):
@@ -235,7 +260,7 @@ def run(prog, check):
                 for i, el in enumerate(c.args[0].elts):
                     callees = {id(x.func) for x in ast.walk(el) if isinstance(x, ast.Call)}
                     names = {x.id for x in ast.walk(el) if isinstance(x, ast.Name) and id(x) not in callees}
-                    if names & params:
+                    if names & derived:
                         # a number rendered in any way cannot carry a name: every data name of the component is float-forced
                         comps.append((i, el, bool(names & forced) and not (names - forced)))
                 sinks[attr] = (f, comps)
@@ -400,6 +425,53 @@ def run(prog, check):
         ok = na is not None and nb is not None and gm.dominates(na, nb) and na is not nb
         check.ob('C05.R2', '%s::order(%s < %s)' % (main.key, a, b), ok, main.where,
                  why if ok else 'required order violated or a phase is missing: ' + why, 'any model using placeholders / exogenous text')
+    # the step-by-step pipeline (a list of phases run one after the other) obeys the same order: the phases are read off the list
+    # operations of the function that builds it (append = at the end, insert(0, ..) = at the front)
+    for pf in M.methods.values():
+        ops = []
+        for st_ in ast.walk(pf.node):
+            if isinstance(st_, ast.Expr) and isinstance(st_.value, ast.Call) and isinstance(st_.value.func, ast.Attribute) and \
+                    st_.value.func.attr in ('append', 'insert') and isinstance(st_.value.func.value, ast.Attribute) and \
+                    st_.value.func.value.attr == 'RunSteps' and st_.value.args and isinstance(st_.value.args[-1], ast.Dict):
+                refs = [v_.attr for v_ in st_.value.args[-1].values if isinstance(v_, ast.Attribute) and isinstance(v_.value, ast.Name)
+                        and v_.value.id == 'self']
+                if len(refs) != 1:
+                    continue
+                pos = None
+                if st_.value.func.attr == 'insert':
+                    k_ = st_.value.args[0]
+                    pos = k_.value if isinstance(k_, ast.Constant) and isinstance(k_.value, int) else 'unknown'
+                ops.append((st_.lineno, refs[0], pos))
+        if len(ops) < 4:
+            continue
+        seq, unknown = [], False
+        for _ln, ref_, pos_ in sorted(ops):
+            if pos_ is None:
+                seq.append(ref_)
+            elif pos_ == 'unknown':
+                unknown = True
+            else:
+                seq.insert(pos_ if pos_ >= 0 else max(len(seq) + pos_, 0), ref_)
+        check.saw(pf)
+
+        def first(nm_):
+            return seq.index(nm_) if nm_ in seq else None
+
+        gen_names = [x_ for x_ in seq if 'GenerateEquation' in x_]
+        fin = first('_CreateFinalEquations')
+        codes = first('_GenerateFullSectorCodes')
+        sans = [i_ for i_, x_ in enumerate(seq) if x_ == san.name]
+        gen = first(gen_names[0]) if gen_names else None
+        conds = [
+            ('full codes before every alias pass', codes is not None and bool(sans) and all(codes < i_ for i_ in sans)),
+            ('an alias pass between generation and the final text', gen is not None and fin is not None and any(gen < i_ < fin for i_ in sans)),
+            ('registered flows and exogenous definitions before the final text',
+             fin is not None and all(first(x_) is not None and first(x_) < fin for x_ in ('_GenerateRegisteredCashFlows', '_ProcessExogenous'))),
+        ]
+        for why_, ok_ in conds:
+            check.ob('C05.R2', '%s::step-order(%s)' % (pf.key, why_), ok_ and not unknown, pf.where,
+                     why_ if (ok_ and not unknown) else 'the phases of the step-by-step pipeline are %s: not %s' % (seq, why_),
+                     'a model built step by step (the GUI path) with a placeholder in a supplier equation')
     # ---- R3 ----------------------------------------------------------------------------------------
     cf = S.methods.get('_CreateFinalEquations')
     if cf is None:
